@@ -136,3 +136,18 @@ package layout
 //@     invariant i + 1 <= j && j <= len(blocks) && len(used) == len(blocks) && !used[i] && same(merged, entry(merged))
 //@     invariant blocksum(merged, len(merged)) + wsum(current.Fragments, len(current.Fragments)) == blocksum(blocks, len(blocks)) - unusedsum(blocks, used, len(blocks)) + unusedsum(blocks, used, i + 1)
 //@     decreases len(blocks) - j
+
+// ---- C11: a header/footer region is only reported for text that repeats across PAGES ----
+// pageSet is the set of pages on which the group's text occurs; a region is emitted only when that set has at least
+// minOccurrences (>= 2) members, and it lists exactly those pages.
+//@ func (*HeaderFooterDetector) findRepeatingPatterns results (res)
+//@   property C11
+//@   flags nosafety
+//@   loop 1:
+//@     invariant minOccurrences >= 2
+//@     step region_needs_enough_distinct_pages: len(regions) == prev(len(regions)) + 1 ==> len(pageSet) >= minOccurrences
+//@     step page_set_is_the_groups_pages: len(regions) == prev(len(regions)) + 1 ==> (forall k int :: {group[k]} 0 <= k && k < len(group) ==> has(pageSet, group[k].PageIndex)) && (forall p int :: {has(pageSet, p)} has(pageSet, p) ==> exists k int :: 0 <= k && k < len(group) && group[k].PageIndex == p)
+//@     step at_most_one_region_per_group: len(regions) == prev(len(regions)) || len(regions) == prev(len(regions)) + 1
+//@     step region_type_and_pages: len(regions) == prev(len(regions)) + 1 ==> regions[prev(len(regions))].Type == regionType
+//@   loop 2:
+//@     invariant (forall k int :: {group[k]} 0 <= k && k < $i ==> has(pageSet, group[k].PageIndex)) && (forall p int :: {has(pageSet, p)} has(pageSet, p) ==> exists k int :: 0 <= k && k < $i && group[k].PageIndex == p)
